@@ -104,6 +104,15 @@ func refStep(v interface{}, key string, assert bool) (interface{}, string) {
 		}
 		return nil, "unspec"
 	}
+	// struct types synthesised per case (reflect.StructOf / anonymous structs): exported field by name
+	if rv := reflect.ValueOf(v); rv.Kind() == reflect.Struct {
+		if _, known := v.(time.Time); !known {
+			if f := rv.FieldByName(key); f.IsValid() && f.CanInterface() {
+				return f.Interface(), "ok"
+			}
+			return nil, "unspec"
+		}
+	}
 	return nil, "unspec" // scalars, slices, functions, pointers to structs: not asserted
 }
 
@@ -298,6 +307,19 @@ func genValueV(t *rapid.T, depth int) spec.V {
 			sm["Any"] = genValueV(t, depth-1)
 		}
 		return spec.V{K: "struct", M: sm}
+	case 4: // a struct type synthesised for this case: random field order and field types
+		names := rapid.Permutation([]string{"Name", "Age", "Score", "Label", "N", "Any"}).Draw(t, "dynorder")
+		n := rapid.IntRange(1, len(names)).Draw(t, "dynn")
+		v := spec.V{K: "dyn"}
+		for _, nm := range names[:n] {
+			f := genLeafV(t)
+			if nm == "Any" && rapid.Bool().Draw(t, "dynnest") {
+				f = genValueV(t, depth-1)
+			}
+			f.N = nm
+			v.L = append(v.L, f)
+		}
+		return v
 	default:
 		return genLeafV(t)
 	}
@@ -372,6 +394,10 @@ func TestC16Random(t *testing.T) {
 					cand = spec.Keys(cur.M)
 				case "struct":
 					cand = []string{"Name", "Age", "Score", "Inner", "P", "Any"}
+				case "dyn":
+					for _, f := range cur.L {
+						cand = append(cand, f.N)
+					}
 				}
 			}
 			if len(cand) > 0 && rapid.IntRange(0, 4).Draw(rt, "kpresent") > 0 {
@@ -384,6 +410,14 @@ func TestC16Random(t *testing.T) {
 				cur, has = cur.M[key]
 			} else if has && cur.K == "struct" && key == "Any" {
 				cur, has = cur.M["Any"]
+			} else if has && cur.K == "dyn" {
+				found := false
+				for _, f := range cur.L {
+					if f.N == key {
+						cur, found = f, true
+					}
+				}
+				has = found
 			} else if has && cur.K == "struct" && key == "Inner" {
 				cur, has = spec.V{K: "inner"}, true
 			} else {
@@ -422,6 +456,10 @@ func TestC16Grid(t *testing.T) {
 		"mi": {K: "mapint", M: map[string]spec.V{"a": {K: "int", S: "0"}, "b": {K: "int", S: "2"}}},
 		"ms": {K: "mapstr", M: map[string]spec.V{"a": {K: "string", S: ""}, "b": {K: "string", S: "x"}}},
 		"st": {K: "struct", M: map[string]spec.V{"Name": {K: "string", S: "Ann"}, "Age": {K: "int", S: "30"}, "Score": {K: "float64", S: "0"}, "Label": {K: "string", S: ""}, "N": {K: "int", S: "0"}}},
+		// two synthesised struct types with the same field names in different orders / of different types
+		"a": {K: "dyn", L: []spec.V{{K: "string", S: "alice", N: "Name"}, {K: "int", S: "30", N: "Age"}, {K: "nil", N: "Any"}}},
+		"b": {K: "dyn", L: []spec.V{{K: "int", S: "41", N: "Age"}, {K: "mapint", N: "Any", M: map[string]spec.V{"a": {K: "int", S: "0"}}}, {K: "string", S: "bob", N: "Name"}, {K: "float64", S: "0", N: "Score"}}},
+		"c": {K: "dyn", L: []spec.V{{K: "float64", S: "2.5", N: "Score"}, {K: "string", S: "", N: "Name"}}},
 	}
 	keys := []string{"a", "b", "n", "np", "ns", "m", "mi", "ms", "st", "len", "max", "zz", "Name", "Age", "Score", "Inner", "P", "Any", "Label", "N", "i", "s"}
 	run := h.Begin("C16", "grid", fmt.Sprintf("bounded-exhaustive: one rich data map (nil, typed nil pointers at top level and inside maps, zero-valued int/string entries, typed maps with zero values, nested maps, structs with zero fields / nil pointer / interface holding a map, keys 'len' and 'max' colliding with builtins) x every path root[.|!.]k1[.|!.]k2 over a %d-key universe (depth 0-2 with both access forms at every position), rooted at the bare name and at 'this', plus a runner without a map; oracle as in the random part; non-trivial as in the random part", len(keys)))
